@@ -93,6 +93,20 @@ func checkC18Expr(c c18ExprCase) *evid.Fail {
 	if f := checkNameList(fmt.Sprintf("expression %q", c.Text), p.VariableNames(), occ, strings.ToUpper); f != nil {
 		return f
 	}
+	// the same parser object asked again (after another expression) reports the same names
+	if g := guard(func() {
+		p.ParseString("zz_other + " + strings.Join(append([]string{"1"}, quoteIdents(occ)...), " + "))
+		err = p.ParseString(c.Text)
+	}); g != nil {
+		return g
+	}
+	if err != nil {
+		return evid.F("well-formed-rejected", "%q rejected on a reused parser: %v", c.Text, err)
+	}
+	if f := checkNameList(fmt.Sprintf("expression %q on a reused parser", c.Text), p.VariableNames(), occ, strings.ToUpper); f != nil {
+		f.Sig = "reused-parser:" + f.Sig
+		return f
+	}
 	// automatic variables: one entry per name compared case-insensitively, previous entries and values kept
 	calc := calculator.NewExpressionCalculator()
 	for _, b := range c.Pre {
@@ -195,6 +209,15 @@ func checkC18Expr(c c18ExprCase) *evid.Fail {
 		}
 	}
 	return nil
+}
+
+// quoteIdents writes names as quoted identifiers (valid for any name).
+func quoteIdents(names []string) []string {
+	out := make([]string, len(names))
+	for i, n := range names {
+		out[i] = "\"" + strings.ReplaceAll(n, "\"", "\"\"") + "\""
+	}
+	return out
 }
 
 func init() { regReplay("C18.expr", checkC18Expr) }
